@@ -46,7 +46,7 @@ generic = z3.Function("generic_result", I, I, I, I, I, B)   # generic_result(opc
 
 PYLONG_SHIFT = 30
 OPCODES = {"pow": 1, "ipow": 1, "lshift": 2, "add": 3, "sub": 4, "mul": 5, "floordiv": 6, "mod": 7, "and": 8, "or": 9, "xor": 10,
-           "rshift": 11, "truediv": 12, "richcmp": 13, "getitem": 14, "index": 15, "long": 16, "setitem": 17, "delitem": 18}
+           "rshift": 11, "truediv": 12, "richcmp": 13, "getitem": 14, "index": 15, "long": 16, "setitem": 17, "delitem": 18, "methodcall": 19}
 
 
 PYNUMBER = {"Add": "add", "Subtract": "sub", "Multiply": "mul", "FloorDivide": "floordiv", "Remainder": "mod", "And": "and", "Or": "or",
@@ -147,6 +147,11 @@ class CExecPyObj(CExecL3):
             if path == "long_value.ob_digit":
                 self.use_rep(st, o)
                 return ("mem", Ptr(node_type(n), ("pydigits", o), z3.IntVal(0)))
+            if path == "allocated":
+                self.assumptions.add("PyListObject.allocated >= ob_size (CPython list invariant)")
+                al = z3.Function("list_allocated", I, I)(o)
+                st.path.append(z3.And(al >= seq_len(o), al < 2 ** 62))
+                return ("const", CV(node_type(n), al))
             if path == "ob_fval":
                 self.assumptions.add("PyFloat_AS_DOUBLE(o) (ob_fval) is the value of the float object")
                 return ("const", CV(node_type(n), fval(o)))
@@ -166,8 +171,9 @@ class CExecPyObj(CExecL3):
             st.path.append(seq_len(o) >= 0)
             # memory safety of the direct element access (what boundscheck / wraparound must guarantee)
             self.oblige(st, "ub", "oob_read.ob_item", z3.And(p.off >= 0, p.off < seq_len(o)), node)
-            r = item(o, p.off)
-            st.path.append(r >= 1)
+            key = "listitems[%s]" % o
+            r = z3.Select(st.mem[key], p.off) if key in st.mem else item(o, p.off)
+            st.path.append(item(o, p.off) >= 1)
             return Ptr(parse_type("PyObject *"), "pyobj", r)
         if isinstance(p, Ptr) and isinstance(p.obj, tuple) and p.obj[0] == "pydigits":
             o = p.obj[1]
@@ -215,7 +221,27 @@ class CExecPyObj(CExecL3):
             o = self.oid(self.ev(st, argn[0]))
             st.path.append(z3.And(seq_len(o) >= 0, seq_len(o) < 2 ** 62))
             self.assumptions.add("%s(o) is the number of elements of the list/tuple (0 <= size, far below PY_SSIZE_T_MAX)" % name)
-            return CV(ty, seq_len(o))
+            key = "listsize[%s]" % o
+            return CV(ty, st.mem[key] if key in st.mem else seq_len(o))
+        if name in ("Py_SET_SIZE", "__Pyx_SET_SIZE"):
+            o = self.oid(self.ev(st, argn[0]))
+            v = self.ev(st, argn[1])
+            # the allocation is not changed: the new size must stay inside what was allocated for the original size
+            self.oblige(st, "ub", "Py_SET_SIZE.within_allocation", z3.And(v.t >= 0, v.t <= seq_len(o)), n)
+            st.mem["listsize[%s]" % o] = v.t
+            self.assumptions.add("Py_SET_SIZE(o, n) sets ob_size (ghost state per object; seq_len(o) stays the size at entry)")
+            return None
+        if name.startswith("__Pyx_CallUnboundCMethod") or name in ("__Pyx__PyObject_PopIndex", "__Pyx__PyObject_PopNewIndex"):
+            args = [self.ev(st, a) for a in (argn[1:] if name.startswith("__Pyx_CallUnboundCMethod") else argn)]
+            ids = [self.oid(a) for a in args if isinstance(a, Ptr) and a.obj == "pyobj"]
+            while len(ids) < 3:
+                ids.append(z3.IntVal(0))
+            r = self.obj(st, ty, "generic")
+            st.path.append(generic(z3.IntVal(OPCODES["methodcall"]), ids[0], ids[1], ids[2], r.off))
+            e2 = self.fresh("err_after_call")
+            st.err = e2
+            self.assumptions.add("calls of CPython's own methods (list.pop, ...) return CPython's own result")
+            return r
         if name.startswith("__Pyx_GetItemInt_Generic"):
             return self.generic_call(st, "getitem", argn, n)
         if name == "Py_TYPE":
@@ -323,6 +349,22 @@ class CExecPyObj(CExecL3):
                 st.path.append(z3.And(blen(o) >= 0, blen(o) < 2 ** 62))
             self.assumptions.add("PyBytes_AS_STRING(o) points to len(o) + 1 readable chars (the contents and a terminating NUL)")
             return Ptr(ty, oname, z3.IntVal(0))
+        if name in ("memmove", "__builtin_memmove", "__builtin___memmove_chk"):
+            d, s_, cnt = self.ev(st, argn[0]), self.ev(st, argn[1]), self.ev(st, argn[2])
+            if (isinstance(d, Ptr) and isinstance(s_, Ptr) and isinstance(d.obj, tuple) and d.obj == s_.obj and d.obj[0] == "pyitems"):
+                o = d.obj[1]
+                nbytes = cnt.t
+                nel = nbytes / 8
+                self.oblige(st, "ub", "memmove.whole_elements", z3.And(nbytes >= 0, nbytes % 8 == 0), n)
+                self.oblige(st, "ub", "memmove.dst_inside_items", z3.And(d.off >= 0, d.off + nel <= seq_len(o)), n)
+                self.oblige(st, "ub", "memmove.src_inside_items", z3.And(s_.off >= 0, s_.off + nel <= seq_len(o)), n)
+                key = "listitems[%s]" % o
+                i = z3.Int("i!mm")
+                cur = st.mem[key] if key in st.mem else z3.Lambda([i], item(o, i))
+                st.mem[key] = z3.Lambda([i], z3.If(z3.And(i >= d.off, i < d.off + nel), z3.Select(cur, i - d.off + s_.off), z3.Select(cur, i)))
+                self.assumptions.add("memmove(d, s, n) inside one list's element array: n / sizeof(PyObject*) elements copied as if through a temporary (C11 7.24.2.2)")
+                return d
+            raise OutOfSubset("memmove outside a list's element array")
         if name == "Py_REFCNT":
             self.ev(st, argn[0])
             r = self.fresh("refcnt")
